@@ -427,6 +427,8 @@ class SimSocket:
         data = bytes(data)
         self.send_calls += 1
         sf = self.send_fail
+        if sf and sf.get("errno") == "TIMEOUT" and not self.timeout:
+            sf = None  # a blocking (or polling) socket has no write timeout to run into
         if sf and self.accept_armed and (self.send_calls >= int(sf.get("call", 1 << 60)) or
                                         ("after_bytes" in sf and self.sent_armed >= int(sf["after_bytes"]))):
             self.net.count("send_error")
